@@ -79,7 +79,6 @@ TreesOK(tr, sc, tn, cov, lost) ==
                  /\ \A j \in DOMAIN t.wit : VerdictOK(t.wit[j][3], tn) /\ t.wit[j][4] = "pos-ok"      \* WitnessLaw
                  /\ \A h \in cks : h <= Max2(mx, 0) \/ h \in mck'[i]  \* no checkpoint above everything scanned (0: the birthday frontier;
                                                                       \* mck: the frontier a truncate_to_chain_state caller supplied)
-                 /\ \A j \in DOMAIN t.ret : t.ret[j] \in cks \/ t.ret[j] > mx
                  /\ \A h \in cov : h \in cks \/ (<< h, i >> \in lost /\ KnownRetain(h, i))    \* RetainedBoundaries
 
 PostAgrees(post) ==
